@@ -283,6 +283,45 @@ theorem wf_rejects_witnesses :
     ∧ wfChunk [0, 2, 19, 1, 62, 1] [] = false
     ∧ wfChunk [0, 2, 24, 3, 7, 1, 9, 62, 1] [] = false := by decide
 
+/-- **wf_flags_sound** (function flags): in a chunk that passes `flagsOk`, the body of a `Function`
+instruction whose `NON_LOCAL_ACCESS` flag is clear contains no `LoadNonLocal` and creates no function
+whose flag is set — so a frame that `run_make_function` creates without non-locals never reads them and
+never reaches `UnexpectedError` (`non_locals.is_none()`) when creating a nested function; and the
+same holds for every nested unit, with the flags of the instruction that creates it. -/
+theorem wf_flags_sound (fuel base f : Nat) (bs : List Nat) (items : List Ann) (subs : List Sub)
+    (h : flagsUnit (fuel + 1) base (some f) bs = true)
+    (hs : sweep (bs.length + 1) base bs = some (items, subs)) (hf : nonLocalFlag f = false) :
+    (∀ a ∈ items, a.ins.op ≠ .LoadNonLocal)
+    ∧ (∀ a ∈ items, a.ins.op = .Function → nonLocalFlag (argAt a.ins 4) = false)
+    ∧ (∀ s ∈ subs, flagsUnit fuel s.base (ownerFlags items s) s.bytes = true) := by
+  simp only [flagsUnit, hs, Bool.and_eq_true, List.all_eq_true] at h
+  obtain ⟨h1, h2⟩ := h
+  have hn : needsNonLocals items = false := by
+    cases hx : needsNonLocals items
+    · rfl
+    · simp [hx, hf] at h1
+  simp only [needsNonLocals, List.any_eq_false] at hn
+  refine ⟨?_, ?_, h2⟩
+  · intro a ha hop
+    have := hn a ha
+    simp [hop] at this
+  · intro a ha hop
+    have := hn a ha
+    cases hfl : nonLocalFlag (argAt a.ins 4)
+    · rfl
+    · simp [hop, hfl] at this
+
+/-- the flag rule on concrete chunks (`f = |n = 1| offset` and a function nested in a function): a body
+that loads a non-local under a clear flag is rejected, under a set flag accepted; an inner function with
+the flag inside an outer one without it is rejected (the shape the VM answers with `UnexpectedError`);
+`wfChunk` accepts all of them — the flag rule is a separate condition. -/
+theorem wf_flags_witnesses :
+    flagsOk [0, 2, 27, 1, 1, 1, 0, 0, 7, 0, 0, 3, 12, 2, 0, 62, 2, 62, 1] = false
+    ∧ flagsOk [0, 2, 27, 1, 1, 1, 0, 8, 7, 0, 0, 3, 12, 2, 0, 62, 2, 62, 1] = true
+    ∧ flagsOk [0, 2, 27, 1, 0, 0, 0, 0, 19, 0, 0, 3, 27, 2, 0, 0, 0, 8, 7, 0, 0, 3, 12, 2, 0, 62, 2, 62, 2, 62, 1] = false
+    ∧ flagsOk [0, 2, 27, 1, 0, 0, 0, 8, 19, 0, 0, 3, 27, 2, 0, 0, 0, 8, 7, 0, 0, 3, 12, 2, 0, 62, 2, 62, 2, 62, 1] = true
+    ∧ wfChunk [0, 2, 27, 1, 1, 1, 0, 0, 7, 0, 0, 3, 12, 2, 0, 62, 2, 62, 1] [.str] = true := by decide
+
 /-! ## Register allocator (`frame.rs`) -/
 
 /-- **frame_inv**: for every history of allocator operations, run as the compiler runs them (the
